@@ -55,6 +55,9 @@ pub enum Step {
     /// external add while paused: kind 0 = at the reported time, 1 = between reported and next pending,
     /// 2 = equal to the next pending timestamp, 3 = reported + a
     Add { kind: u8, a: u64 },
+    /// while the run is paused the driver configures a builder for some later simulation (start time `a`) and drops it
+    /// without building: nothing of that may show in the paused runtime
+    OtherBuilder { a: u64 },
 }
 
 #[derive(Serialize, Deserialize, Clone, Debug, PartialEq, Eq, Hash)]
@@ -657,6 +660,7 @@ fn check_c02(p: &RtProgram, insts: &[Inst], roots: &[usize], start: u64, real: &
                         rt.dispatch_events_until(st(t));
                     }
                     Step::Add { .. } => {}
+                    Step::OtherBuilder { a } => drop(Builder::new().quiet().start_time(st(*a))),
                 }
                 obs.push((rt.app.log.handled.len(), ns_of(rt.sim_time())));
             }
@@ -842,6 +846,7 @@ fn check_c01_rt(p: &RtProgram, insts: &[Inst], roots: &[usize], start: u64, unin
                     rt.add_event(Ev { uid }, st(time));
                     ext_list.push((uid, time));
                 }
+                Step::OtherBuilder { a } => drop(Builder::new().quiet().start_time(st(*a))),
             }
         }
         rt.dispatch_all();
@@ -932,6 +937,7 @@ fn check_c03_stepped(p: &RtProgram, insts: &[Inst], roots: &[usize], start: u64,
                     ext_list.push((uid, time));
                     added = Some((uid, time));
                 }
+                Step::OtherBuilder { a } => drop(Builder::new().quiet().start_time(st(*a))),
             }
             marks.push((rt.app.log.handled.len(), added));
         }
@@ -1162,6 +1168,7 @@ fn check_c10(p: &RtProgram, insts: &[Inst], roots: &[usize], start: u64, model: 
                     ext_list.push((uid, time));
                     ext_adds += 1;
                 }
+                Step::OtherBuilder { a } => drop(Builder::new().quiet().start_time(st(*a))),
             }
             // observations while paused, judged against what the run itself has handled so far
             let after: Vec<(usize, u64)> = rt.app.log.handled.clone();
@@ -1415,6 +1422,7 @@ pub fn generate(prop: &str, rng: &mut Rng, tier: Tier) -> RtProgram {
             prog.steps.push(match rng.weighted(&[5, 4, w_add]) {
                 0 => Step::N { k: if rng.chance(1, 8) { rng.below(400) } else { rng.small(6) } },
                 1 => Step::Until { kind: rng.below(5) as u8, a: rng.below(t_ns.saturating_mul(8).max(2)) },
+                _ if rng.chance(1, 10) => Step::OtherBuilder { a: rng.below(t_ns.saturating_mul(50).max(2)) },
                 _ => Step::Add { kind: rng.below(4) as u8, a: rng.below(t_ns.saturating_mul(8).max(2)) },
             });
         }
